@@ -67,6 +67,16 @@ var qid uint64 = 1000
 
 // ids of the documents with tag g=<tag> in one index ("*" = all indexes); one entry per hit
 func search(index, tag string) (ids []string, err error) {
+	hits, err := searchRange(index, "g="+tag, 1600000000000, 1700000000999)
+	for _, h := range hits {
+		id, _ := h["id"].(string)
+		ids = append(ids, id)
+	}
+	return ids, err
+}
+
+// all records of one index matching text with a timestamp in [start, end]
+func searchRange(index, text string, start, end uint64) (hits []map[string]interface{}, err error) {
 	defer func() {
 		if r := recover(); r != nil {
 			err = fmt.Errorf("panic: %v", r)
@@ -74,8 +84,8 @@ func search(index, tag string) (ids []string, err error) {
 	}()
 	qid++
 	req := map[string]interface{}{
-		"searchText": "g=" + tag, "indexName": index,
-		"startEpoch": uint64(1600000000000), "endEpoch": uint64(1800000000000),
+		"searchText": text, "indexName": index,
+		"startEpoch": start, "endEpoch": end,
 		"size": uint64(10000), "queryLanguage": "Splunk QL",
 	}
 	resp, _, _, err := pipesearch.ParseAndExecutePipeRequest(req, qid, 0, time.Now(), "", nil)
@@ -85,11 +95,7 @@ func search(index, tag string) (ids []string, err error) {
 	if resp == nil {
 		return nil, nil
 	}
-	for _, h := range resp.Hits.Hits {
-		id, _ := h["id"].(string)
-		ids = append(ids, id)
-	}
-	return ids, nil
+	return resp.Hits.Hits, nil
 }
 
 // ---------- lines, grammar ----------
@@ -109,12 +115,23 @@ var kindCoq = []string{"KIndex", "KCreate", "KUpdate", "KDelete", "KUnknown", "K
 
 var indexNames = map[int]string{1: "c15a", 2: "c15b", 3: "c15c", 4: "c15d", 9: strings.Repeat("x", 300),
 	// names utils.IsSafePathComponent rejects (numbers >= 20), as they read after JSON unescaping
-	20: "<no _index>", 21: "", 22: ".", 23: "..", 24: "a/b", 25: "../x", 26: `a\b`}
+	20: "<no _index>", 21: "", 22: ".", 23: "..", 24: "a/b", 25: "../x", 26: `a\b`,
+	// indexes that, after an ordinary first document, only ever receive documents without any field
+	5: "c15h1", 6: "c15h2", 7: "c15h3"}
+
+// 40+k: fresh index c15f<k> whose very first block holds only field-less documents
+func freshIdx(k int) int {
+	indexNames[40+k] = fmt.Sprintf("c15f%d", k)
+	return 40 + k
+}
+
+// timestamps of {"timestamp":T} documents: tsOnlyBase + evalNo*100 + line number (the ordinary lines use 1700000000000+n)
+const tsOnlyBase = 1710000000000
 
 // the JSON text of the unsafe names inside the quotes of "_index"
 var unsafeJSON = map[int]string{21: "", 22: ".", 23: "..", 24: "a/b", 25: `..\/x`, 26: `a\\b`}
 
-func unsafeIdx(ix int) bool { return ix >= 20 }
+func unsafeIdx(ix int) bool { return ix >= 20 && ix < 30 }
 
 // one body line as the generator made it (shape + how the bulk grammar reads it)
 type lineSpec struct {
@@ -127,6 +144,12 @@ type lineSpec struct {
 }
 
 func (l lineSpec) render(tag string, n int) string {
+	switch l.Shape {
+	case "doc_ts_only": // no field besides the timestamp key
+		return fmt.Sprintf(`{"timestamp":%d}`, tsOnlyBase+evalNo*100+n)
+	case "doc_empty_obj":
+		return "{}"
+	}
 	id := fmt.Sprintf("%sd%d", tag, n)
 	common := fmt.Sprintf(`"id":"%s","g":"%s","timestamp":%d`, id, tag, 1700000000000+int64(n))
 	verb := func(v string) string {
@@ -191,7 +214,7 @@ func mk(shape string, idx int) lineSpec {
 		l.Act, l.Parses = kBadJson, true
 	case "garbage", "empty", "garbage_sized":
 		l.Act, l.Parses = kBadJson, false
-	case "doc", "doc_nested", "doc_sized":
+	case "doc", "doc_nested", "doc_sized", "doc_ts_only", "doc_empty_obj":
 		l.Act, l.Parses = kUnknown, true
 	case "doc_truncated", "doc_array", "doc_scalar":
 		l.Act, l.Parses = kUnknown, false
@@ -325,13 +348,17 @@ func evaluate(c bodyCase) (obs observation, fails []failure, texts []string, len
 
 	// ---- the real HandleBulkBody ----
 	var respJS []byte
+	var t0, t1 uint64
 	func() {
 		defer func() {
 			if r := recover(); r != nil {
 				fails = append(fails, failure{"bulk_handler_panic", fmt.Sprintf("HandleBulkBody panicked: %v", r)})
 			}
 		}()
+		time.Sleep(2 * time.Millisecond) // {} documents get the arrival time: keep the windows of consecutive bodies apart
+		t0 = uint64(time.Now().UnixMilli())
 		n, resp, err := eswriter.HandleBulkBody([]byte(body), nil, 0, 0, false)
+		t1 = uint64(time.Now().UnixMilli())
 		obs.Processed, obs.AllFailed = n, err != nil
 		respJS, _ = json.Marshal(resp) // as utils.WriteJsonResponse does, before the pooled items slice is reused
 	}()
@@ -385,6 +412,63 @@ func evaluate(c bodyCase) (obs observation, fails []failure, texts []string, len
 			}
 			obs.Found = append(obs.Found, [2]int{ix, n})
 			total++
+		}
+	}
+	// documents without any field cannot carry the tag: {"timestamp":T} is found by its own T,
+	// {} by the arrival window of this request (count equality per index)
+	fieldless := false
+	for _, l := range c.Lines {
+		fieldless = fieldless || l.Shape == "doc_ts_only" || l.Shape == "doc_empty_obj"
+	}
+	if fieldless {
+		for _, ix := range idxs {
+			if unsafeIdx(ix) || ix == 9 {
+				continue
+			}
+			base := uint64(tsOnlyBase + evalNo*100)
+			hits, err := searchRange(indexNames[ix], "*", base, base+99)
+			if err != nil {
+				herr = fmt.Sprintf("range search in %s failed: %v", indexNames[ix], err)
+				return
+			}
+			for _, h := range hits {
+				n := -1
+				switch v := h["timestamp"].(type) {
+				case uint64:
+					n = int(v - base)
+				case int64:
+					n = int(uint64(v) - base)
+				case float64:
+					n = int(uint64(v) - base)
+				case json.Number:
+					x, _ := v.Int64()
+					n = int(uint64(x) - base)
+				}
+				if n < 0 || n >= len(c.Lines) || c.Lines[n].Shape != "doc_ts_only" || len(h) != 1 {
+					obs.Stray = append(obs.Stray, fmt.Sprintf("%s/%v", indexNames[ix], h))
+					continue
+				}
+				obs.Found = append(obs.Found, [2]int{ix, n})
+			}
+			hits, err = searchRange(indexNames[ix], "*", t0, t1)
+			if err != nil {
+				herr = fmt.Sprintf("window search in %s failed: %v", indexNames[ix], err)
+				return
+			}
+			// the {} documents of this body that the grammar sends to this index, in order
+			var mine []int
+			for _, a := range acts {
+				if a.Kind == "write" && a.HasDoc && a.Idx == ix && c.Lines[a.DLine].Shape == "doc_empty_obj" {
+					mine = append(mine, a.DLine)
+				}
+			}
+			for k, h := range hits {
+				if len(h) != 1 || k >= len(mine) {
+					obs.Stray = append(obs.Stray, fmt.Sprintf("%s/%v (arrival window)", indexNames[ix], h))
+					continue
+				}
+				obs.Found = append(obs.Found, [2]int{ix, mine[k]})
+			}
 		}
 	}
 	all, err := search("*", tag)
@@ -447,6 +531,9 @@ func evaluate(c bodyCase) (obs observation, fails []failure, texts []string, len
 			case count(a.Idx, a.DLine) == 0 && len(indexNames[a.Idx]) > 255:
 				fails = append(fails, failure{"bulk_store_failure_reported_created",
 					fmt.Sprintf("item %d is 201, errors=%v, but the document is not searchable: its index name has %d bytes and the store call failed", i, obs.Errors, len(indexNames[a.Idx]))})
+			case count(a.Idx, a.DLine) == 0 && a.Idx >= 40 && isBad(c, a.Idx):
+				fails = append(fails, failure{"bulk_created_after_fieldless_first_block_not_searchable",
+					fmt.Sprintf("item %d is 201, errors=%v, but document line %d is not found in %s after the flush: the first block of that index's segment held only documents without any field", i, obs.Errors, a.DLine, indexNames[a.Idx])})
 			case count(a.Idx, a.DLine) == 0:
 				fails = append(fails, failure{"bulk_created_but_not_searchable", fmt.Sprintf("item %d is 201 but document line %d is not found in %s after the flush", i, a.DLine, indexNames[a.Idx])})
 			case count(a.Idx, a.DLine) > 1:
@@ -490,6 +577,15 @@ func evaluate(c bodyCase) (obs observation, fails []failure, texts []string, len
 		}
 	}
 	return
+}
+
+func isBad(c bodyCase, ix int) bool {
+	for _, b := range c.BadIndex {
+		if b == ix {
+			return true
+		}
+	}
+	return false
 }
 
 // ---------- generators ----------
@@ -700,6 +796,56 @@ func genUnsafe(r *vhlib.Rng) bodyCase {
 	return c
 }
 
+// documents without any field ({"timestamp":T}, {}) into the primed indexes c15h1..3, which receive
+// nothing else: every request is followed by a flush, so the block they land in holds only
+// such documents; ordinary actions into the other indexes around them
+func fieldlessDoc(r *vhlib.Rng) lineSpec {
+	if r.Chance(60) {
+		return mk("doc_ts_only", 0)
+	}
+	return mk("doc_empty_obj", 0)
+}
+func genFieldless(r *vhlib.Rng) bodyCase {
+	nIdx := r.Range(1, 3)
+	c := bodyCase{Stream: "fieldless_docs", FinalNL: r.Chance(75)}
+	n := r.Range(1, 5)
+	forced := r.Intn(n)
+	for i := 0; i < n; i++ {
+		if i == forced || r.Chance(50) {
+			v := "index"
+			if r.Chance(25) {
+				v = "create"
+			}
+			c.Lines = append(c.Lines, mk(v, 5+r.Intn(3)), fieldlessDoc(r))
+		} else {
+			c.Lines = append(c.Lines, someAction(r, nIdx, true)...)
+		}
+	}
+	if r.Chance(50) {
+		c.Lines = append(c.Lines, closing(r, nIdx)...)
+	}
+	return c
+}
+
+// known class: a fresh index whose first block holds only field-less documents (step 1: they are
+// searchable), then an ordinary document into the same index (step 2: acknowledged, never searchable)
+func genFieldlessFirst(r *vhlib.Rng, k int) []bodyCase {
+	ix := freshIdx(k)
+	s1 := bodyCase{Stream: "known/fieldless_first_block/step1", FinalNL: true}
+	for i := 0; i < r.Range(1, 3); i++ {
+		s1.Lines = append(s1.Lines, mk("index", ix), fieldlessDoc(r))
+	}
+	if r.Bool() {
+		s1.Lines = append(s1.Lines, mk("index", 1), mk("doc", 0))
+	}
+	s2 := bodyCase{Stream: "known/fieldless_first_block/step2", FinalNL: true, BadIndex: []int{ix}}
+	s2.Lines = append(s2.Lines, mk("index", ix), mk("doc", 0))
+	if r.Bool() {
+		s2.Lines = append(s2.Lines, mk("index", 2), mk("doc", 0), mk("index", ix), mk("doc_ts_only", 0))
+	}
+	return []bodyCase{s1, s2}
+}
+
 // hand-written corner bodies, always run first
 func corner() []bodyCase {
 	ix, doc := mk("index", 1), mk("doc", 0)
@@ -729,6 +875,9 @@ func corner() []bodyCase {
 		{Stream: "unsafe_index", Lines: []lineSpec{mk("index", 22), doc}, FinalNL: true},
 		{Stream: "unsafe_index", Lines: []lineSpec{mk("index", 24), mk("index", 26), doc, ix, doc}, FinalNL: true},
 		{Stream: "unsafe_index", Lines: []lineSpec{ix, doc, mk("index", 26)}, FinalNL: true},
+		{Stream: "fieldless_docs", Lines: []lineSpec{mk("index", 5), mk("doc_ts_only", 0), mk("index", 5), mk("doc_empty_obj", 0)}, FinalNL: true},
+		{Stream: "fieldless_docs", Lines: []lineSpec{mk("index", 6), mk("doc_empty_obj", 0), ix, doc, mk("create", 6), mk("doc_empty_obj", 0)}, FinalNL: false},
+		{Stream: "fieldless_docs", Lines: []lineSpec{ix, doc, mk("index", 7), mk("doc_ts_only", 0)}, FinalNL: true},
 	}
 }
 
@@ -817,9 +966,18 @@ func main() {
 
 	rng := vhlib.NewRng(cfg.Seed)
 	rMain, rT, rO, rS, rU := rng.Fork(), rng.Fork(), rng.Fork(), rng.Fork(), rng.Fork()
-	nMain, nKnown, nUnsafe := 230, 22, 70
+	rF, rFF := rng.Fork(), rng.Fork()
+	nMain, nKnown, nUnsafe, nFieldless, nFresh := 230, 22, 70, 40, 3
 	if cfg.Thorough() {
-		nMain, nKnown, nUnsafe = 2600, 150, 500 // one process: flush+search get slower as the store grows (7200 bodies took 17 min)
+		nMain, nKnown, nUnsafe, nFieldless, nFresh = 2400, 150, 500, 300, 10 // one process: flush+search get slower as the store grows (7200 bodies took 17 min)
+	}
+	// prime c15h1..3: the first block of their segment holds an ordinary document
+	for ix := 5; ix <= 7; ix++ {
+		b := fmt.Sprintf("{\"index\":{\"_index\":\"%s\"}}\n{\"id\":\"prime\",\"g\":\"prime\",\"timestamp\":1700000000000}\n", indexNames[ix])
+		if _, _, err := eswriter.HandleBulkBody([]byte(b), nil, 0, 0, false); err != nil {
+			sum.HarnessError("priming " + indexNames[ix] + ": " + err.Error())
+		}
+		flush()
 	}
 	cases := corner()
 	for i := 0; i < nMain; i++ {
@@ -831,8 +989,15 @@ func main() {
 	for i := 0; i < nUnsafe; i++ {
 		cases = append(cases, genUnsafe(rU))
 	}
+	for i := 0; i < nFieldless; i++ {
+		cases = append(cases, genFieldless(rF))
+	}
+	// last: a poisoned index rewrites its first block at every later flush of the process
+	for k := 0; k < nFresh; k++ {
+		cases = append(cases, genFieldlessFirst(rFF, k)...)
+	}
 
-	known := map[string]bool{"bulk_store_failure_reported_created": true}
+	known := map[string]bool{"bulk_store_failure_reported_created": true, "bulk_created_after_fieldless_first_block_not_searchable": true}
 	reported := map[string]int{}
 	var coqCases []string
 	shard := 0
